@@ -10,7 +10,9 @@ import "strings"
 //   - safety obligations (panics) belong to the no-panic properties;
 //   - everything else (ensures, invariants, call preconditions, vacuity) serves
 //     all properties of the function, unless a clause names its own.
-var frameProps = map[string]bool{"C02": true, "C03": true, "C07": true, "C08": true, "C09": true, "C13": true, "C17": true, "C19": true}
+// C18 is among them because saving a snapshot must not write what it has already handed
+// out (nor the authorizer it saves): two seeded changes are caught by exactly that.
+var frameProps = map[string]bool{"C02": true, "C03": true, "C07": true, "C08": true, "C09": true, "C13": true, "C17": true, "C18": true, "C19": true}
 var safeProps = map[string]bool{"C06": true, "C10": true, "C14": true, "C18": true, "C20": true}
 
 func routeProps(kind string, props []string) []string {
